@@ -53,6 +53,7 @@ type TraceEv struct {
 	Err         string `json:"err"`          // error text or ""
 	AfterTunnel bool   `json:"after_tunnel"` // set by the harness when it had already closed the tunnel
 	ErrHdr      string `json:"err_hdr"`      // wrote: value of the X-Forwarder-Error field (diagnostics)
+	Conn        string `json:"conn"`         // remote address of the client connection (req.RemoteAddr), "" if there is no request
 }
 
 // Rig is a running proxy.
@@ -203,6 +204,7 @@ func (r *Rig) onRead(req *http.Request, err error) {
 	ev := TraceEv{Kind: "read", HasReq: req != nil}
 	if req != nil {
 		ev.Method = req.Method
+		ev.Conn = req.RemoteAddr
 	}
 	if err != nil {
 		ev.Err = err.Error()
@@ -223,6 +225,7 @@ func (r *Rig) onWrote(res *http.Response, err error) {
 		if res.Request != nil {
 			ev.HasReq = true
 			ev.Method = res.Request.Method
+			ev.Conn = res.Request.RemoteAddr
 		}
 	}
 	if err != nil {
